@@ -378,6 +378,66 @@ func c16Run(c *engine.Ctx) {
 		listL = 4
 	}
 	c16Collections(c, entries, listL-1)
+	// every activity type name x an embedded object that has the SAME id as the actor (a profile update, a self-follow ...):
+	// neither the type name nor the coincidence of two properties changes what flattening does
+	for _, stName := range []string{"Activity", "IntransitiveActivity", "Question"} {
+		for _, typ := range vocabularyNamesOf(stName) {
+			for _, fn := range []string{"FlattenProperties", map[string]string{"Activity": "FlattenActivityProperties", "IntransitiveActivity": "FlattenIntransitiveActivityProperties", "Question": "FlattenProperties"}[stName]} {
+				if fn == "FlattenProperties" && typ == stName && stName != "Question" {
+					continue // the generic names are exercised through the typed functions (assumption of this check)
+				}
+				h := c16Host{name: stName + "(" + typ + ")/" + fn, st: stName, typ: typ, fn: fn}
+				for _, base := range c16Hosts() {
+					if base.st == stName && base.fn == fn {
+						h.single = base.single
+					}
+				}
+				st := universe.ByName(stName)
+				for _, pos := range []string{"Object", "Target", "Origin", "Result", "Instrument"} {
+					f := st.Field(pos)
+					if f == nil {
+						continue
+					}
+					for _, actorForm := range []string{"iri", "*Actor"} {
+						for _, objKind := range []string{"*Actor(Person)", "*Actor(Service)", "*Object(Note)", "Actor-value"} {
+							h, f, actorForm, objKind := h, *f, actorForm, objKind
+							class := "C16|" + stName + "(any type name)|" + f.Term
+							c.Do(class, func() string {
+								return fmt.Sprintf("%s typed %q through %s: actor = %s a, %s = %s with the same id a", stName, h.typ, h.fn, actorForm, f.Term, objKind)
+							}, func(t *engine.T) {
+								t.Distinct(true)
+								const a = "https://example.com/users/a"
+								var obj ap.Item
+								switch objKind {
+								case "*Actor(Person)":
+									obj = &ap.Actor{ID: a, Type: ap.PersonType, Name: ap.NaturalLanguageValues{{Ref: "-", Value: ap.Content("new name")}}}
+								case "*Actor(Service)":
+									obj = &ap.Actor{ID: a, Type: ap.ServiceType}
+								case "*Object(Note)":
+									obj = &ap.Object{ID: a, Type: ap.NoteType}
+								default:
+									obj = ap.Actor{ID: a, Type: ap.GroupType}
+								}
+								c16Check(t, h, f.Term, func(ev reflect.Value) {
+									af := ev.FieldByName("Actor")
+									if actorForm == "iri" {
+										af.Set(reflect.ValueOf(ap.IRI(a)).Convert(af.Type()))
+									} else {
+										af.Set(reflect.ValueOf(&ap.Actor{ID: a, Type: ap.PersonType}).Convert(af.Type()))
+									}
+									ev.Field(f.Index).Set(reflect.ValueOf(obj))
+								}, func(t *engine.T, got ap.Item, key func(string) string) {
+									if d := c16Desc(got); d != "iri:"+a {
+										t.Fail(key("same-id-as-actor|"+objKind+"|wrong-result"), "%s typed %q: %s = %s (same id as the actor) became %s, expected iri:%s", stName, h.typ, f.Term, objKind, d, a)
+									}
+								})
+							})
+						}
+					}
+				}
+			}
+		}
+	}
 	for _, h := range c16Hosts() {
 		h := h
 		st := universe.ByName(h.st)
